@@ -69,7 +69,8 @@ static int mrb_child(const char * line, FILE * fd) {
             unsigned long n = strtoul(s + 1, (char **) &s, 10);
             uint8_t * p = jls_mrb_alloc(&m, (uint32_t) n);
             if (p) {
-                for (unsigned long i = 0; i < n; ++i) p[i] = (uint8_t) ((31UL * k + 3UL * i + 1UL) % 251UL);
+                /* a region for a message larger than the whole buffer is reported (the oracle rejects it) but not written */
+                for (unsigned long i = 0; (i < n) && (n <= cap); ++i) p[i] = (uint8_t) ((31UL * k + 3UL * i + 1UL) % 251UL);
                 sprintf(tok, "a=%ld", (long) (p - buf));
             } else {
                 sprintf(tok, "a=NULL");
